@@ -19,7 +19,7 @@ CLAIMS = {
  "C15": ("proof", "24 Coq theorems: day number <-> civil date inverse for all integers (era sweep + periodicity), binary write/read round trip for every well-formed timestamp, binary rejection of impossible fields, rounding to the nearest nanosecond; text round trip and literal validity by K9 + independent oracle", "§7 C15"),
  "C12": ("proof", "Coq theorems for every call sequence: no call panics (binary growing-table Writer, text Writer), a recorded error makes every later call fail unchanged, a failing call other than Finish records the error; K3/K4 with the misuse alphabet; 'final Finish nil => bytes denote the successful calls' decided by the oracle with independent decoders", "§7 C12"),
  "C13": ("proof", "Coq theorems over the Gallina model of the binary codecs (length = bytes emitted, read∘append = id, reads never wrap) for all values; model tied to the Go functions by differential execution on boundary-directed inputs", "§7 C13"),
- "C14": ("proof", "31 Coq theorems over the Gallina model of decimal.go (exact rational results of Add/Sub/Mul/Neg/Abs/Shift, Cmp/Equal/Sign vs Qcompare, Truncate closed form, text round trip, literal validity; refuted variants with witnesses); tied to the Go code by a grid + random correspondence with an independent Fraction oracle", "§7 C14"),
+ "C14": ("proof", "45 Coq theorems over the Gallina model of decimal.go (exact rational results of Add/Sub/Mul/Neg/Abs/Shift, Cmp/Equal/Sign vs Qcompare, Truncate closed form, text round trip, literal validity; refuted variants with witnesses); tied to the Go code by a grid + random correspondence with an independent Fraction oracle", "§7 C14"),
  "C16": ("other", "Gallina model of marshal.go/unmarshal.go/fields.go over an inductive universe of Go types; round-trip theorems on the flat sub-universe, refuted full statements with witnesses; K11 correspondence on declared and reflect-built types; oracle: round trip equality and determinism on the real code", "§7 C16"),
  "C17": ("other", "Coq theorems: integer/float/string/bytes targets store exactly the Ion value or return an error (no wrap, no truncation), scalar mismatches are errors, Decoder stream order; K11 value x target matrix; oracle: documented mapping judged independently", "§7 C17"),
  "C18": ("other", "Coq frame theorem: threads whose steps do not write the shared environment produce schedule-independent outputs; its premise is regenerated from the Go source on every run by a go/ssa write-set translator (coq/Conc/SharedWrites.v must be []); race-detector workload as support", "§7 C18"),
